@@ -18,7 +18,7 @@ use dv_harness::*;
 // ---------------------------------------------------------------- reading
 
 #[derive(Clone, PartialEq, Eq, Debug)]
-enum End { Eof, Err(String), Panic(String), Cap }
+enum End { Eof, Err(String), Panic(String), Cap, Hang }
 
 fn show_entry(e: &Entry) -> String {
     match e {
@@ -54,8 +54,7 @@ fn has_position(s: &str) -> bool {
     }
 }
 
-fn read_all(data: &[u8]) -> (Vec<String>, End, bool) {
-    let data = data.to_vec();
+fn read_all_inner(data: Vec<u8>) -> (Vec<String>, End, bool) {
     let cap = data.len() + 8;
     let r = catch(move || {
         let mut z = Zonefile::from(&data[..]);
@@ -71,6 +70,20 @@ fn read_all(data: &[u8]) -> (Vec<String>, End, bool) {
     match r { Ok(x) => x, Err(p) => (vec![], End::Panic(p), true) }
 }
 
+/// Every read runs in its own thread: a reader that does not come back within
+/// `HANG_SECS` is abandoned (the thread keeps spinning) and reported as a hang,
+/// so that one hanging input does not end the whole run.
+const HANG_SECS: u64 = 4;
+fn read_all(data: &[u8]) -> (Vec<String>, End, bool) {
+    let d = data.to_vec();
+    let (tx, rx) = std::sync::mpsc::channel();
+    std::thread::spawn(move || { let _ = tx.send(read_all_inner(d)); });
+    match rx.recv_timeout(std::time::Duration::from_secs(HANG_SECS)) {
+        Ok(x) => x,
+        Err(_) => (vec![], End::Hang, true),
+    }
+}
+
 fn obs(v: &[String], e: &End) -> String {
     let mut s = String::new();
     for x in v { s.push_str(x); s.push(' '); }
@@ -79,28 +92,79 @@ fn obs(v: &[String], e: &End) -> String {
         End::Err(w) => { s.push_str("ERR:"); s.push_str(w); }
         End::Panic(_) => { s.clear(); s.push_str("PANIC"); }
         End::Cap => s.push_str("CAP"),
+        End::Hang => { s.clear(); s.push_str("HANG"); }
     }
     s
 }
 
+/// Does the input contain an over-long UTF-8 encoding (C0/C1 lead, E0 80..9F, F0 80..8F)?
+fn has_overlong(d: &[u8]) -> bool {
+    d.windows(2).any(|w| (w[0] == 0xC0 || w[0] == 0xC1) && (w[1] & 0xC0) == 0x80
+        || w[0] == 0xE0 && (0x80..0xA0).contains(&w[1])
+        || w[0] == 0xF0 && (0x80..0x90).contains(&w[1]))
+}
+
+fn mentions_txt(d: &[u8]) -> bool {
+    let l: Vec<u8> = d.iter().filter(|b| **b != b'\\').map(|b| b.to_ascii_lowercase()).collect();
+    l.windows(3).any(|w| w == b"txt") || d.contains(&b'\\')
+}
+
 /// Specific class words for the panics of the reader.
-fn panic_class(msg: &str) -> &'static str {
-    if msg.contains("missing token prefix space") { "panic_reader_missing_prefix_space" }
+fn panic_class(msg: &str, data: &[u8]) -> &'static str {
+    if has_overlong(data) { "overlong_utf8_panic" }
+    else if msg.contains("attempt to add with overflow") { "int_scan_add_overflow_panic" }
+    else if msg.contains("index out of bounds") && mentions_txt(data) { "charstr_entry_no_token_panic" }
+    else if msg.contains("missing token prefix space") { "panic_reader_missing_prefix_space" }
     else if msg.contains("token not completely read") { "panic_reader_token_not_read" }
-    else if msg.contains("attempt to add with overflow") { "panic_reader_int_overflow" }
-    else if msg.contains("index out of bounds") || msg.contains("out of range") { "panic_reader_index" }
-    else if msg.contains("at <= self.start") { "panic_reader_split" }
-    else if msg.contains("attempt to subtract with overflow") { "panic_reader_sub_overflow" }
     else { "panic_reader" }
 }
 
-fn totality(out: &mut Out, kind: &str, data: &[u8]) -> (Vec<String>, End) {
+/// The Coq model covers the record types below; a file is sent through the
+/// correspondence check only if no other type mnemonic (nor a TYPEnnn form nor
+/// the RFC 3597 `\#` marker) can possibly be formed from its octets. The test
+/// over-approximates what the tokenizer could see: backslashes are dropped,
+/// `\DDD` is decoded, and mnemonics are searched as substrings.
+const SUPPORTED: [&str; 10] = ["A", "NS", "CNAME", "SOA", "PTR", "HINFO", "MX", "TXT", "SRV", "NAPTR"];
+
+struct Elig { unsupported: Vec<Vec<u8>> }
+impl Elig {
+    fn new() -> Elig {
+        let mut v = vec![];
+        for m in all_mnemonics() {
+            if !SUPPORTED.contains(&m.as_str()) { v.push(m.to_ascii_lowercase().into_bytes()); }
+        }
+        Elig { unsupported: v }
+    }
+    fn ok(&self, data: &[u8]) -> bool {
+        if data.contains(&b'#') { return false; }
+        let mut flat: Vec<u8> = Vec::with_capacity(data.len());
+        let mut i = 0;
+        while i < data.len() {
+            let b = data[i];
+            if b == b'\\' {
+                if i + 3 < data.len() && data[i + 1].is_ascii_digit() && data[i + 2].is_ascii_digit() && data[i + 3].is_ascii_digit() {
+                    let v = (data[i + 1] - b'0') as u32 * 100 + (data[i + 2] - b'0') as u32 * 10 + (data[i + 3] - b'0') as u32;
+                    flat.push(if v < 128 { (v as u8).to_ascii_lowercase() } else { b'?' });
+                    i += 4;
+                } else { i += 1; }
+            } else { flat.push(if b < 128 { b.to_ascii_lowercase() } else { b'?' }); i += 1; }
+        }
+        let has = |pat: &[u8]| flat.windows(pat.len()).any(|w| w == pat);
+        if has(b"type") { return false; }
+        for m in &self.unsupported { if has(m) { return false; } }
+        true
+    }
+}
+
+fn totality(out: &mut Out, el: &Elig, kind: &str, data: &[u8]) -> (Vec<String>, End) {
     let c = format!("read {}", hex(data));
     out.begin(&c);
     let (v, e, pos) = read_all(data);
-    out.oracle_case(&c, !v.is_empty(), kind);
+    if el.ok(data) && e != End::Cap && e != End::Hang { out.case(&c, &obs(&v, &e), !v.is_empty(), kind); }
+    else { out.oracle_case(&c, !v.is_empty(), kind); }
     match &e {
-        End::Panic(m) => out.check(false, panic_class(m), &c, m),
+        End::Panic(m) => out.check(false, panic_class(m, data), &c, m),
+        End::Hang => out.check(false, if has_overlong(data) { "overlong_utf8_hang" } else { "hang_reader" }, &c, "no result within 4 s"),
         End::Cap => out.check(false, "reader_no_progress", &c, "more entries than input octets"),
         End::Err(_) => out.check(pos, "error_without_position", &c, ""),
         End::Eof => out.check(true, "panic_reader", &c, ""),
@@ -153,7 +217,8 @@ fn layout_of(i: usize) -> Layout {
 /// octet -> presentation inside/outside quotes. `fancy` picks alternative escapes.
 fn put_octet(o: &mut Vec<u8>, b: u8, quoted: bool, in_name: bool, fancy: Option<&mut Rng>) {
     let special_unq = matches!(b, b' ' | b'\t' | b'"' | b';' | b'(' | b')' | b'\\' | b'@' | b'$') || (in_name && b == b'.');
-    let special_q = matches!(b, b'"' | b'\\') || (in_name && b == b'.');
+    // a leading `$` or a lone `@` is recognised in quoted tokens as well: always escape them
+    let special_q = matches!(b, b'"' | b'\\' | b'@' | b'$') || (in_name && b == b'.');
     let printable = (0x21..0x7F).contains(&b) || (quoted && b == b' ');
     let special = if quoted { special_q } else { special_unq };
     let mode = match fancy {
@@ -376,7 +441,9 @@ fn gen_str(r: &mut Rng) -> Vec<u8> {
     (0..n).map(|_| if r.chance(4, 5) { *r.pick(b"abc xyz0123=-_./:") } else { *r.pick(&[b'"', b'\\', b';', b'(', b')', b'@', 0, 10, 13, 9, 127, 128, 255, b'$']) }).collect()
 }
 
-fn gen_zone(r: &mut Rng) -> Vec<Item> {
+fn gen_zone(r: &mut Rng) -> Vec<Item> { gen_zone_of(r, false) }
+
+fn gen_zone_of(r: &mut Rng, model_types: bool) -> Vec<Item> {
     let mut items = Vec::new();
     let tlds: [&[u8]; 3] = [b"example", b"test", b"org"];
     let mut origin: Name = vec![b"zone".to_vec(), r.pick(&tlds).to_vec()];
@@ -393,7 +460,8 @@ fn gen_zone(r: &mut Rng) -> Vec<Item> {
         let ttl = *r.pick(&[0u32, 60, 300, 300, 3600, 3600, 86400, 2147483647]);
         let plain = r.chance(3, 4);
         let nm = |r: &mut Rng| Field::Name(if r.chance(1, 6) { vec![] } else if r.chance(1, 5) { origin.clone() } else { gen_name(r, &origin, plain) });
-        let (rtype, fields): (&'static str, Vec<Field>) = match r.below(14) {
+        let pickt = if model_types { *r.pick(&[0u64, 2, 3, 4, 5, 6, 7, 7, 8, 9, 10]) } else { r.below(14) };
+        let (rtype, fields): (&'static str, Vec<Field>) = match pickt {
             0 => ("A", vec![Field::Word(format!("{}.{}.{}.{}", r.below(256), r.below(256), r.below(256), r.below(256)))]),
             1 => ("AAAA", vec![Field::Word(r.pick(&["2001:db8::1", "::", "::1", "fe80::1:2:3:4", "1:2:3:4:5:6:7:8", "::ffff:192.0.2.1"]).to_string())]),
             2 => ("NS", vec![nm(r)]),
@@ -472,8 +540,15 @@ fn main() {
         b"a. 1 IN TXT \"a\nb\"\n", b"a. 1 IN TXT \"abc", b"a. 1 IN TXT a\\", b"a. 1 IN TXT a\\0", b"@", b"$", b"\\#",
         b"a. 1 IN TYPE999 \\# 2 0102\n", b"a. 1 IN TYPE999 \\# 0\n", b"a. 1 IN A \\# 4 01020304\n",
         b"$\xC0\x80 x\n", b"$INCLUDE \xC0\x80\n",
+        b"a. 1 IN DS 1 1 1 \xC0\xA0\n", b"a. 1 IN MX 65535 b.\n", b"a. 1 IN MX 65536 b.\n", b"a. 1 IN MX 655350 b.\n",
+        b"a. +1 IN A 1.2.3.4\n", b"a. 1 CLASS1 TYPE1 1.2.3.4\n", b"a. 1 IN A 01.2.3.4\n", b"a. 1 IN A 1.2.3\n",
+        b"$ORIGIN x.\n@ 1 IN NS @\n@ 1 IN NS x.\n",
+        b"$ORIGIN x.\na 1 IN NS \\@\n",
+        b"$TTL 5\na. IN A 1.2.3.4\n 7 A 1.2.3.5\n A 1.2.3.6\n",
+        b"a. 7 IN A 1.2.3.4\n A 1.2.3.5\nb. CH A 1.2.3.4\n",
     ];
-    for c in &corpus { totality(&mut out, "corpus", c); }
+    let el = Elig::new();
+    for c in &corpus { totality(&mut out, &el, "corpus", c); }
 
     // ---- (a) totality fuzz
     let mnem = all_mnemonics();
@@ -498,7 +573,17 @@ fn main() {
                 d
             }
         };
-        totality(&mut out, match i % 6 { 0 => "random", 1 | 2 => "alphabet", 3 => "type_tail", _ => "mutated_zone" }, &data);
+        totality(&mut out, &el, match i % 6 { 0 => "random", 1 | 2 => "alphabet", 3 => "type_tail", _ => "mutated_zone" }, &data);
+    }
+
+    // ---- (c) T2 stream: zones over the record types the model covers, any
+    //      layout, zero to two byte mutations
+    for i in 0..1500 * scale {
+        let z = gen_zone_of(&mut r, true);
+        let l = layout_of(r.below(16) as usize);
+        let mut d = render(&z, &l, &mut r);
+        match i % 4 { 0 => {} 1 | 2 => { let p = r.below(d.len() as u64 + 1) as usize; if p < d.len() { d[p] = alpha_byte(&mut r); } } _ => mutate(&mut r, &mut d) }
+        totality(&mut out, &el, "model_zone", &d);
     }
 
     // ---- (b) metamorphic
@@ -510,7 +595,7 @@ fn main() {
         let (v0, e0, _) = read_all(&canon);
         let nrec = z.iter().filter(|i| matches!(i, Item::Rec(_))).count();
         out.oracle_case(&cc, true, "canonical");
-        if let End::Panic(m) = &e0 { out.check(false, panic_class(m), &cc, m); continue; }
+        if let End::Panic(m) = &e0 { out.check(false, panic_class(m, &canon), &cc, m); continue; }
         out.check(e0 == End::Eof && v0.len() == nrec, "wellformed_rejected", &cc, &obs(&v0, &e0));
         if e0 != End::Eof { continue; }
         for k in 0..15 {
@@ -521,7 +606,7 @@ fn main() {
             out.begin(&c);
             let (v1, e1, _) = read_all(&alt);
             out.oracle_case(&c, true, if k < 14 { REWRITES[k] } else { "mixed" });
-            if let End::Panic(m) = &e1 { out.check(false, panic_class(m), &c, m); continue; }
+            if let End::Panic(m) = &e1 { out.check(false, panic_class(m, &alt), &c, m); continue; }
             let class = format!("layout_dependent_{}", if k < 14 { REWRITES[k] } else { "mixed" });
             out.check(v1 == v0 && e1 == e0, &class, &c, &format!("{} <> {}", obs(&v1, &e1), obs(&v0, &e0)));
         }
